@@ -42,11 +42,29 @@ func (s *Session) AbortProbe(r *RNG, p Params, how string) {
 				return simdisk.ActOK
 			})
 		}
+	case "flush-fault-abort":
+		// writes scheduled by Tx.Flush fail in the background writer; the transaction is then aborted
+		p.BeforeEnd = func(s *Session, commit bool) {
+			base, _ := s.Disk.CallCounts()
+			from := base["write"]
+			burst := 1 + r.Intn(3)
+			s.Disk.SetFault(func(k string, n, total int) simdisk.Action {
+				if k == "write" && n >= from && n < from+burst {
+					s.IOFault = true
+					return simdisk.ActErr
+				}
+				return simdisk.ActOK
+			})
+			s.Flush()
+		}
 	}
 	res := s.RunTx(r, p)
 	s.Disk.SetFault(nil)
 	if res == "commit-ok" {
 		return // the fault did not hit; a normal commit
+	}
+	if how == "flush-fault-abort" {
+		defer s.followUpCommits(r, how)
 	}
 	s.mark("abort-probe-" + how + "-" + res)
 	after := s.F.VerifSnapshot()
@@ -65,6 +83,37 @@ func (s *Session) AbortProbe(r *RNG, p Params, how string) {
 		}
 		s.ReadCheck("C07")
 	}
+}
+
+// followUpCommits: after an aborted transaction the next transaction behaves as if the
+// aborted one had never run: on a file with room it commits.
+func (s *Session) followUpCommits(r *RNG, how string) {
+	if s.F == nil || s.Tx != nil {
+		return
+	}
+	fs := s.F.VerifSnapshot()
+	if fs.MaxPages > 0 {
+		room := fs.DataAvail + fs.MetaAvail
+		if fs.DataEnd < fs.MaxPages {
+			room += fs.MaxPages - fs.DataEnd
+		}
+		if room < 8 {
+			return // a commit on a (nearly) full file may fail for lack of space
+		}
+	}
+	if s.Begin(TxOpts{}) != "ok" {
+		s.fail("C07", "abort-followup", "Begin after aborted transaction (%s) failed", how)
+		return
+	}
+	if ids, res := s.Alloc(1 + r.Intn(3)); res == "ok" {
+		for _, id := range ids {
+			s.Write(id, "full")
+		}
+	}
+	if res := s.Commit(); res != "ok" && !strings.Contains(res, "oom") {
+		s.fail("C07", "abort-followup", "the transaction after an aborted one (%s) did not commit: %s — the aborted transaction left a trace", how, res)
+	}
+	s.mark("abort-followup")
 }
 
 // BigStalledCommit commits one transaction with more page writes than the background
